@@ -10,6 +10,40 @@ import os
 import vlib
 
 DEPTH = {"quick": 7, "thorough": 9}
+E2E_DEPTH = {"quick": 6, "thorough": 8}      # exhaustive depth replayed end-to-end through the controllers
+E2E_SIM = {"quick": 300, "thorough": 3000}   # deep simulated behaviours replayed end-to-end
+
+
+def _wrapped(b):
+    streak, wrapped = 0, False
+    for a in b:
+        if a in ("S", "F"):
+            streak += 1
+            wrapped = wrapped or streak > 4
+        elif a.startswith("Hydrate"):
+            streak = 1 if a == "HydrateT" else 2
+        else:
+            streak = 0
+    return wrapped
+
+
+def _e2e(run, behs, tag):
+    """Replay behaviours through the real lifecycle + registrationhealth controllers (parallel driver processes)."""
+    import concurrent.futures as cf
+    parts = vlib.shard(behs, 8)
+    files = []
+
+    def one(i_part):
+        i, part = i_part
+        bp = os.path.join(run.work, "health-e2e-%s-%d.json" % (tag, i))
+        json.dump(part, open(bp, "w"))
+        out = json.loads(run.drv("health-e2e", ["-in", bp, "-out", os.path.join(run.work, "traces-e2e-%s-%d" % (tag, i)), "-shards", 1]))
+        return out["files"]
+    run.build_drv()
+    with cf.ThreadPoolExecutor(max_workers=8) as ex:
+        for fl in ex.map(one, list(enumerate(parts))):
+            files += fl
+    return files
 
 
 def check(run):
@@ -38,24 +72,29 @@ def check(run):
     bpath = os.path.join(run.work, "health-behs.json")
     json.dump(allb, open(bpath, "w"))
     for b in allb:
-        streak, wrapped = 0, False
-        for a in b:
-            if a in ("S", "F"):
-                streak += 1
-                wrapped = wrapped or streak > 4
-            elif a.startswith("Hydrate"):
-                streak = 1 if a == "HydrateT" else 2
-            else:
-                streak = 0
-        run.note_case(tuple(b), wrapped)
+        run.note_case(tuple(b), _wrapped(b))
     out = json.loads(run.drv("health-unit", ["-in", bpath, "-out", os.path.join(run.work, "traces"), "-shards", 8]))
     run.validate("Health_Trace", "Health_Trace.cfg", out["files"])
+    # end-to-end: the same behaviours through the real controllers on the world harness
+    d2 = E2E_DEPTH[run.tier]
+    open(os.path.join(run.specdir, "Health_Gen_e2e.cfg"), "w").write(cfg.replace("MaxLen = %d" % depth, "MaxLen = %d" % d2))
+    eb = run.generate("Health", "Health_Gen_e2e.cfg", workers=1, timeout=600)
+    esim = sim[:E2E_SIM[run.tier]]
+    for b in eb + esim:
+        run.note_case(("e2e",) + tuple(b), _wrapped(b))
+    efiles = _e2e(run, eb, "exh") + _e2e(run, esim, "sim")
+    run.validate("Health_Trace", "Health_Trace.cfg", efiles)
+    run.extra_cov["e2e_exhaustive_depth"] = d2
+    run.extra_cov["e2e_behaviours"] = len(eb) + len(esim)
     run.samples = [{"behaviour": allb[0]}, {"behaviour": allb[len(allb) // 2]}, {"behaviour": sim[0] if sim else allb[-1]}]
     run.exhaustive = True
     run.extra_cov["exhaustive_depth"] = depth
     run.extra_cov["simulated_behaviours"] = len(sim)
     run.assumptions += ["window size 4 and threshold 0.5 as in nodepoolhealth (read from the package constants)",
-                        "unit level observes State.DryRun/Status/Update/SetStatus"]
+                        "unit level observes State.DryRun/Status/Update/SetStatus",
+                        "end-to-end level: outcomes are produced by NodeClaims registering / timing out (launch and registration "
+                        "timeouts alternate) through the real nodeclaim lifecycle controller; Reset/Hydrate by the real nodepool "
+                        "registrationhealth controller; the NodePool condition is read from the API store after every step"]
 
 
 def replay(run, path):
@@ -63,7 +102,9 @@ def replay(run, path):
     beh = [e["op"] for e in body["trace"] if e.get("e") == "Op"]
     bpath = os.path.join(run.work, "replay-beh.json")
     json.dump([beh], open(bpath, "w"))
-    out = json.loads(run.drv("health-unit", ["-in", bpath, "-out", os.path.join(run.work, "traces"), "-shards", 1]))
+    level = next((e.get("level") for e in body["trace"] if e.get("e") == "Cfg"), "unit")
+    drv = "health-e2e" if level == "e2e" else "health-unit"
+    out = json.loads(run.drv(drv, ["-in", bpath, "-out", os.path.join(run.work, "traces"), "-shards", 1]))
     run.note_case(tuple(beh))
     run.note_case(("replay",))
     run.validate("Health_Trace", "Health_Trace.cfg", out["files"])
